@@ -184,7 +184,13 @@ class AsyncTLSStreamTransport(AsyncStreamTransport):
                         try:
                             await self._retry_ssl_method(self._ssl_object.unwrap)
                         except OSError:
-                            pass
+                            # unwrap() may have produced the close notification before failing
+                            # (e.g. application data received but not read yet): send it anyway.
+                            if self._write_bio.pending:
+                                with contextlib.suppress(OSError):
+                                    async with self.__transport_send_lock:
+                                        if self._write_bio.pending:
+                                            await self._transport.send_all(self._write_bio.read())
                         self._read_bio.write_eof()
                         self._write_bio.write_eof()
                     except BaseException:
